@@ -21,7 +21,7 @@ theorem roots_present : table.rootsPresent .controller = true ∧ table.rootsPre
 /-- the only place where the library creates a thread is `boot()`, and the function it hands to
     `std::thread` is the root of the filtering role -/
 theorem spawn_root :
-    table.spawns = [(name% "FilteringAlgorithm::boot", name% "FilteringAlgorithm::filtering_recursion")] := by
+    table.spawns = [spawnSite] := by
   decide +kernel
 
 theorem roots_controller : table.rootIds .controller = rootsClaim .controller := by decide +kernel
@@ -48,7 +48,7 @@ theorem claimed_sub_skipFlags : ∀ f ∈ claimedUndisciplined, f ∈ table.fiel
 
 /-- no member of `FilteringAlgorithm` is undisciplined -/
 theorem claimed_not_lifecycle :
-    ∀ f ∈ claimedUndisciplined, f ∉ table.fieldsOfClass (name% "FilteringAlgorithm") := by
+    ∀ f ∈ claimedUndisciplined, f ∉ table.fieldsOfClass lifecycleClass := by
   decide +kernel
 
 /-- the lifecycle members exist and are shared: the lifecycle statement is not vacuous -/
